@@ -7,6 +7,8 @@ token soups, every documented function x arity 0..4 x a 12-value pool, random Un
 truncated formulas - every call recorded with a step/time budget and judged by TLC (Trace_C01:
 returned, well-formed, and equal to XLEval where the case is inside the specified language)."""
 import datetime
+import contextlib
+import io
 import itertools
 import json
 import os
@@ -306,6 +308,11 @@ def main(tier, replay=None):
             combos = list(combos)
         for bs in combos:
             obs.append(run_schedule(lib, B, t, list(bs) + [0, 0, 0], debug=False))
+        # the same with debug output switched on (diagnostics are written, and discarded here): still a record, always
+        dbg = list(itertools.product(range(nb), repeat=k)) if k == 1 else [tuple(rng.randrange(nb) for _ in range(k)) for _ in range(150 if quick else 3000)]
+        with contextlib.redirect_stderr(io.StringIO()), contextlib.redirect_stdout(io.StringIO()):
+            for bs in dbg:
+                obs.append(run_schedule(lib, B, t, list(bs) + [0, 0, 0], debug=True))
     run.extra['fault_schedules'] = len(obs)
     # --- token soups
     n0 = len(obs)
@@ -420,9 +427,9 @@ def main(tier, replay=None):
                   '"a"&' * n + '"b"', '#' * n, '1' + '%' * n, 'IF(' * n + '1']
     # astronomically large arguments in every position of every documented function, and as literals: a dozen characters of
     # input must not buy hours of computation
-    huge = ['1000000000', '999999999999', '10^30', '-1000000000', '2^62']
+    huge = ['1000000000', '999999999999', '10^30', '-1000000000', '2^62', '2000000000.0', '4000000000/2', '(0-10^30)/1', '"1000000000"']
     for name in names:
-        for h in (huge if not quick else [huge[0], huge[3], huge[(len(name)) % 4 + 1]]):
+        for h in (huge if not quick else [huge[0], huge[3], huge[(len(name)) % 4 + 1], huge[5 + len(name) % 4]]):
             texts += ['%s(%s)' % (name, h), '%s(2,%s)' % (name, h), '%s(%s,2)' % (name, h), '%s(2,3,%s)' % (name, h)]
     texts += ['9^999999999', '2^99999999', '10^400', '7^77777', '99^9999999', '1^999999999999', '0^0', '2^3^999999999',
               '999999999%', '10^30*10^30', '"a"&10^400', '-9^999999999', '(2^99999999)=1']
